@@ -42,6 +42,10 @@ let dispatch (f : string array) : string option =
       let tr = api_wh_trace (f.(2) = "a") (bytes_of_hex f.(3)) (f.(4) = "1")
                  (parse_wops (if Array.length f > 5 then f.(5) else "")) in
       Some (String.concat ";" (List.map (function Some b -> "c" ^ hex_of_bytes b | None -> "none") tr))
+  | "hist" ->
+      (* hist <mode> <envspec> <op>... *)
+      let ops = Array.to_list (Array.sub f 3 (Array.length f - 3)) in
+      Some (Memdrv.run_hist (parse_env f.(2)) ops)
   | "expand" -> Some (out_res out_str (api_expand (parse_env f.(1)) (a 2)))
   | "abs_m" | "abs_s" -> Some (out_res out_str (api_abs (parse_env f.(1)) (a 2) (a 3)))
   | "xdg" ->
